@@ -10,11 +10,14 @@ VARIABLE c
 
 Kinds == {"struct", "generic_struct", "unit_struct", "newtype_struct", "tuple_struct_generic", "alias", "generic_alias",
           "unit_enum", "enum_newtype", "enum_struct", "enum_mixed", "generic_enum", "enum_tag_dashed", "enum_tag_kw", "const"}
+\* kw_py_edge: field names that are not keywords as written but become one when a backend normalises them (from_, in_, _return)
+\* datetime / bytes (type features): time::OffsetDateTime and Vec<u8> members: TypeScript, Go and Python give them custom
+\* (de)serialisation helpers whose text names the member's KEY; Kotlin / Swift / Scala refuse OffsetDateTime (out of scope there)
 \* unicode: variant wire names with a combining mark, a variation selector, a zero-width joiner, a non-ASCII letter
 \* kw_dashed / kebab_kw: keyword members next to dashed members in the same item (a dashed key switches Swift and Kotlin to a
 \* different printing path - CodingKeys / @SerialName - for all the members of the item)
-Namings == {"plain", "kw_swift", "kw_py", "kw_both", "kw_type", "kw_dashed", "kebab_kw", "dashed", "rename_all_kebab", "rename_all_upper", "digit", "quote", "unicode", "single_letter"}
-TypeFeatures == {"prim", "option", "vec_option", "map", "user", "generic", "override_lang", "serialized_as", "unit", "array", "nested", "boxed_self", "i64", "default_attr"}
+Namings == {"plain", "kw_swift", "kw_py", "kw_both", "kw_type", "kw_dashed", "kebab_kw", "dashed", "rename_all_kebab", "rename_all_upper", "digit", "quote", "unicode", "single_letter", "kw_py_edge"}
+TypeFeatures == {"prim", "option", "vec_option", "map", "user", "generic", "override_lang", "serialized_as", "unit", "array", "nested", "boxed_self", "i64", "default_attr", "datetime", "bytes"}
 Decos == {"none", "swift_deco", "swift_decos2", "kotlin_deco", "redacted", "constraints", "item_serialized_as", "readonly"}
 Docs == {"none", "all", "multiline"}
 \* folder: folder-output mode with a second crate whose type is imported (import lines are part of the file)
@@ -46,6 +49,7 @@ InScope(r) ==
     /\ (r.deco = "readonly" => r.kind \in {"struct", "generic_struct", "enum_struct", "enum_mixed"})
     /\ (r.kind = "const" => (r.deco = "none"))
     /\ (r.tyf \in {"default_attr", "override_lang"} => r.kind \in {"struct", "generic_struct", "enum_struct", "enum_mixed"})
+    /\ (r.tyf \in {"datetime", "bytes"} => r.kind \in {"struct", "enum_struct", "enum_mixed", "enum_newtype", "alias"})
     /\ (r.tyf = "serialized_as" => r.kind \in {"struct", "generic_struct", "enum_struct", "enum_mixed", "enum_newtype"})
     /\ (r.tyf = "boxed_self" => r.kind \in {"struct", "enum_newtype", "enum_struct", "enum_mixed"})
     /\ (r.deco = "item_serialized_as" => r.kind \in {"struct", "unit_enum", "enum_mixed", "newtype_struct"})
@@ -56,13 +60,15 @@ Next == UNCHANGED c
 AllLangs == {"typescript", "kotlin", "swift", "scala", "go", "python"}
 \* keywords are promised to be escaped by Swift (names of types, fields, variants) and Python (field names)
 Scope == CASE c.naming \in {"kw_swift", "kw_py", "kw_both", "kw_dashed", "kebab_kw"} -> {"swift", "python"}
+           [] c.naming = "kw_py_edge" -> AllLangs
            [] c.naming = "kw_type" -> {"swift"}
            [] OTHER -> AllLangs
 \* constants are supported by TypeScript, Go and Python only; the others must refuse (judged by C03/C07)
 ConstLangs == {"typescript", "go", "python"}
 FolderLangs == AllLangs \ {"go"}                 \* Go has no folder mode
 Langs0 == IF c.cfg \in {"folder", "folder_prefix"} THEN Scope \cap FolderLangs ELSE Scope
-Langs == IF c.kind = "const" THEN Langs0 \cap ConstLangs
+Langs == IF c.tyf = "datetime" THEN Langs0 \cap {"typescript", "go", "python"}
+         ELSE IF c.kind = "const" THEN Langs0 \cap ConstLangs
          ELSE IF c.kind = "enum_tag_kw" THEN Langs0 \cap {"swift", "python"}
          ELSE Langs0
 
